@@ -27,6 +27,18 @@ CLAIMS = {
  "C16": ("decision-table extraction of version commitment over policy × offer × committed; must-pass-through of checkVersion; per-version emission constants; escape/alias analysis of buffers wiped on exit; value-term check of whitespace-tag removal",
          "Structural necessary conditions: v3 preferred over v2 under policy, sticky, nothing committed on failure; other-version messages rejected before parsing/dispatch; offered versions follow policy; disabled OTR returns a copy and does nothing else; no returned plaintext aliases the wiped local buffer; tag extraction keeps the surrounding text. The two-party negotiation outcome is not decided.",
          "DESIGN.md §4/C16"),
+ "C09": ("who-may-write/who-may-call over the VTA call graph, value terms of the retired id, CFG ordering (retire before increment, retire implies move), must-pass-through of the drain on every generated message, wire-layout extraction of the disclosed-keys field",
+         "Structural necessary conditions of MAC-key disclosure: only the retire functions feed the queue with the receiving keys of generation id-1, computed before the id moves and only when it moves; matching records are returned and deleted together; every generated data message drains and serialises the whole queue. The joint two-party timing claim is not decided.",
+         "DESIGN.md §4/C09"),
+ "C13": ("typestate (non-nil with kills, inter-procedural) for lazily established fields; the Go compiler's prove pass as candidate generator for bounds checks against a reviewed table with dominating-test requirements; allocation-size and integer-narrowing audits over SSA; CFG typestate for UnreadByte and loop-progress in the s-expression reader; error-use discipline for randomness helpers",
+         "Structural necessary conditions of crash/hang/memory robustness: no nil dispatch on c.smp.state/c.ake, no new undischarged bounds check, allocation sizes bounded by input length, no new lossy narrowing, no reachable panic/unchecked assertion, reader loops consume input, randomness errors are used. Termination and memory use in general are not decided.",
+         "DESIGN.md §4/C13"),
+ "C18": ("who-may-write with constant values, event-condition provenance (state loaded before the store), three-valued path enumeration of Send's dispatch, CFG ordering and must-facts for the resend queue, natural-loop exit analysis of TLV processing",
+         "Structural necessary conditions of the lifecycle: three state writers with their constants and events, Send refuses in finished, retransmission armed/flushed/marked as specified and only after an accepted Reveal-Signature/Signature, every TLV of an authenticated message is handled, End/disconnect drop the exchange context. Event sequences over whole histories and timing are not decided.",
+         "DESIGN.md §4/C18"),
+ "C19": ("growth-site audit: every append on memory reachable from a conversation is matched against a closed table and its bounding partner is verified structurally (drain post-dominance, find-or-add, eviction reachability, replace-not-extend); must-pass-through of authentication before history growth",
+         "Structural necessary condition of bounded state: no unclassified growth site; each known site has its drain/eviction/replace partner; histories grow only from authenticated messages or own sends; every generated message drains the disclosure queue. Actual byte sizes are not decided.",
+         "DESIGN.md §4/C19"),
 }
 
 NA = {}
